@@ -812,26 +812,41 @@ impl Select for Signature {
             // keep compatible scaled if applicable
             valid = if let Some(sel_scaled) = selection.scaled() {
                 match s {
-                    Sketch::MinHash(mh) => valid && mh.scaled() <= sel_scaled as u64,
-                    // TODO: test LargeMinHash
-                    // Sketch::LargeMinHash(lmh) => valid && lmh.scaled() <= sel_scaled as u64,
+                    // num sketches report scaled == 0 and never satisfy a scaled request
+                    Sketch::MinHash(mh) => {
+                        valid && mh.scaled() != 0 && mh.scaled() <= sel_scaled as u64
+                    }
+                    Sketch::LargeMinHash(lmh) => {
+                        valid && lmh.scaled() != 0 && lmh.scaled() <= sel_scaled as u64
+                    }
                     _ => valid, // other sketch types or invalid cases
                 }
             } else {
                 valid // if selection.scaled() is None, keep prior valid
             };
-            /*
             valid = if let Some(abund) = selection.abund() {
-                valid && *s.with_abundance() == abund
+                match s {
+                    Sketch::MinHash(mh) => valid && mh.track_abundance() == abund,
+                    Sketch::LargeMinHash(mh) => valid && mh.track_abundance() == abund,
+                    _ => valid,
+                }
             } else {
                 valid
             };
             valid = if let Some(moltype) = selection.moltype() {
-                valid && s.moltype() == moltype
+                valid && s.hash_function() == moltype
             } else {
                 valid
             };
-            */
+            valid = if let Some(num) = selection.num() {
+                match s {
+                    Sketch::MinHash(mh) => valid && mh.num() == num,
+                    Sketch::LargeMinHash(mh) => valid && mh.num() == num,
+                    _ => valid,
+                }
+            } else {
+                valid
+            };
 
             valid
         });
@@ -839,10 +854,14 @@ impl Select for Signature {
         // downsample the retained sketches if needed.
         if let Some(sel_scaled) = selection.scaled() {
             for sketch in self.signatures.iter_mut() {
-                // TODO: also account for LargeMinHash
                 if let Sketch::MinHash(mh) = sketch {
                     if (mh.scaled() as u32) < sel_scaled {
                         *sketch = Sketch::MinHash(mh.clone().downsample_scaled(sel_scaled as u64)?);
+                    }
+                } else if let Sketch::LargeMinHash(mh) = sketch {
+                    if (mh.scaled() as u32) < sel_scaled {
+                        *sketch =
+                            Sketch::LargeMinHash(mh.clone().downsample_scaled(sel_scaled as u64)?);
                     }
                 }
             }
